@@ -3,6 +3,9 @@
 package queues
 
 import (
+	"context"
+	"time"
+
 	"github.com/pinealctx/neptune/queue/priq"
 	"github.com/pinealctx/neptune/queue/syncq"
 	"github.com/pinealctx/neptune/syncx/pipe/async"
@@ -38,9 +41,11 @@ type Queue interface {
 	AddPrior(v int) string
 	AddCtrl(v int) string
 	AddPriorCtrl(v int) string
-	Pop() (int, string)       // blocking
-	PopAnyway() (int, string) // blocking
-	TryPop() (int, string)    // non-blocking (syncq, priq)
+	AddAnyway(v int) string     // blocking: retries with Sleep while full
+	AddCtrlAnyway(v int) string // blocking (mq)
+	Pop() (int, string)         // blocking
+	PopAnyway() (int, string)   // blocking
+	TryPop() (int, string)      // non-blocking (syncq, priq)
 	Close()
 	TryClose() bool
 	TryClear() bool
@@ -53,6 +58,8 @@ type base struct{}
 func (base) AddPrior(int) string      { panic("unsupported") }
 func (base) AddCtrl(int) string       { panic("unsupported") }
 func (base) AddPriorCtrl(int) string  { panic("unsupported") }
+func (base) AddAnyway(int) string     { panic("unsupported") }
+func (base) AddCtrlAnyway(int) string { panic("unsupported") }
 func (base) PopAnyway() (int, string) { panic("unsupported") }
 func (base) TryPop() (int, string)    { panic("unsupported") }
 func (base) TryClose() bool           { panic("unsupported") }
@@ -126,14 +133,17 @@ type pipeQ struct {
 	q *q.Q
 }
 
-func (a *pipeQ) Add(v int) string         { return code(a.q.AddReq(v), q.ErrClosed, q.ErrReqQFull) }
-func (a *pipeQ) AddPrior(v int) string    { return code(a.q.AddPriorReq(v), q.ErrClosed, q.ErrReqQFull) }
+func (a *pipeQ) Add(v int) string      { return code(a.q.AddReq(v), q.ErrClosed, q.ErrReqQFull) }
+func (a *pipeQ) AddPrior(v int) string { return code(a.q.AddPriorReq(v), q.ErrClosed, q.ErrReqQFull) }
+func (a *pipeQ) AddAnyway(v int) string {
+	return code(a.q.AddReqAnyway(v, time.Millisecond), q.ErrClosed, q.ErrReqQFull)
+}
 func (a *pipeQ) Pop() (int, string)       { v, e := a.q.Pop(); return val(v, e, q.ErrClosed) }
 func (a *pipeQ) PopAnyway() (int, string) { v, e := a.q.PopAnyway(); return val(v, e, q.ErrClosed) }
 func (a *pipeQ) Close()                   { a.q.Close() }
 func (a *pipeQ) Has(op string) bool {
 	switch op {
-	case "add", "addprior", "pop", "popanyway", "close":
+	case "add", "addprior", "addanyway", "pop", "popanyway", "close":
 		return true
 	}
 	return false
@@ -156,7 +166,7 @@ func (a *asyncQ) PopAnyway() (int, string) {
 func (a *asyncQ) Close() { a.q.Close() }
 func (a *asyncQ) Has(op string) bool {
 	switch op {
-	case "add", "addprior", "pop", "popanyway", "close":
+	case "add", "addprior", "addanyway", "pop", "popanyway", "close":
 		return true
 	}
 	return false
@@ -169,14 +179,17 @@ type muxQ struct {
 	q *mux.Q
 }
 
-func (a *muxQ) Add(v int) string         { return code(a.q.AddReq(v), mux.ErrClosed, mux.ErrQFull) }
-func (a *muxQ) AddPrior(v int) string    { return code(a.q.AddPriorReq(v), mux.ErrClosed, mux.ErrQFull) }
+func (a *muxQ) Add(v int) string      { return code(a.q.AddReq(v), mux.ErrClosed, mux.ErrQFull) }
+func (a *muxQ) AddPrior(v int) string { return code(a.q.AddPriorReq(v), mux.ErrClosed, mux.ErrQFull) }
+func (a *muxQ) AddAnyway(v int) string {
+	return code(a.q.AddReqAnyway(v, time.Millisecond), mux.ErrClosed, mux.ErrQFull)
+}
 func (a *muxQ) Pop() (int, string)       { v, e := a.q.Pop(); return val(v, e, mux.ErrClosed) }
 func (a *muxQ) PopAnyway() (int, string) { v, e := a.q.PopAnyway(); return val(v, e, mux.ErrClosed) }
 func (a *muxQ) Close()                   { a.q.Close() }
 func (a *muxQ) Has(op string) bool {
 	switch op {
-	case "add", "addprior", "pop", "popanyway", "close":
+	case "add", "addprior", "addanyway", "pop", "popanyway", "close":
 		return true
 	}
 	return false
@@ -208,7 +221,7 @@ func (a *mQ) TryClose() bool           { return a.q.TryClose() }
 func (a *mQ) TryClear() bool           { return a.q.TryClear() }
 func (a *mQ) Has(op string) bool {
 	switch op {
-	case "add", "addprior", "addctrl", "addpriorctrl", "pop", "popanyway", "close", "tryclose", "tryclear":
+	case "add", "addprior", "addctrl", "addpriorctrl", "addanyway", "addctrlanyway", "pop", "popanyway", "close", "tryclose", "tryclear":
 		return true
 	}
 	return false
@@ -272,3 +285,23 @@ func NewQueue(kind string, capN int) Queue {
 	}
 	panic("unknown queue kind " + kind)
 }
+
+func (a *asyncQ) AddAnyway(v int) string {
+	return code(a.q.AddAnyway(v, time.Millisecond), async.ErrClosed, async.ErrFull)
+}
+
+func (a *mQ) AddAnyway(v int) string {
+	return code(a.q.AddReqAnyway(v, time.Millisecond), mq.ErrClosed, mq.ErrReqQFull, mq.ErrCtrlQFull)
+}
+
+func (a *mQ) AddCtrlAnyway(v int) string {
+	return code(a.q.AddCtrlAnyway(v, time.Millisecond), mq.ErrClosed, mq.ErrCtrlQFull, mq.ErrReqQFull)
+}
+
+// WaitCloser is implemented by the queues that let a goroutine wait for the close.
+type WaitCloser interface {
+	WaitClose(ctx context.Context) error
+}
+
+func (a *muxQ) WaitClose(ctx context.Context) error { return a.q.WaitClose(ctx) }
+func (a *mQ) WaitClose(ctx context.Context) error   { return a.q.WaitClose(ctx) }
